@@ -136,10 +136,14 @@ func (rg *c06rig) inject(b [][]bool) {
 }
 
 func (rg *c06rig) quiescentMetrics(i int) (map[string]float64, error) {
+	return quiescentNodeMetrics(rg.nodes[i])
+}
+
+func quiescentNodeMetrics(node *Node) (map[string]float64, error) {
 	var last map[string]float64
 	var err error
 	ok := core.WaitUntil(30*time.Second, 2*time.Millisecond, func() bool {
-		m, e := Metrics(rg.nodes[i], "")
+		m, e := Metrics(node, "")
 		if e != nil {
 			err = e
 			return false
@@ -160,7 +164,7 @@ func (rg *c06rig) quiescentMetrics(i int) (map[string]float64, error) {
 	})
 	if !ok {
 		if err == nil {
-			err = fmt.Errorf("proxy requests still in flight on %s after 30 s (%v)", rg.nodes[i].ID, last["piko_proxy_requests_in_flight"])
+			err = fmt.Errorf("proxy requests still in flight on %s after 30 s (%v)", node.ID, last["piko_proxy_requests_in_flight"])
 		}
 		return nil, err
 	}
@@ -500,10 +504,123 @@ func runC06LocalPreference(sh *core.Shard) {
 	}
 }
 
+// runC06GoAwayForwarded: a forwarded request reaches a node whose only local
+// upstream for the endpoint has announced go-away (an agent shutting down
+// gracefully: still registered, refuses new streams) while that node's own routing
+// table - rightly or stalely - lists another node for the endpoint. Whatever the
+// receiving node does about the refused dial, the request has used its one hop: it
+// is answered there (502), never sent on to a third node and never back to the
+// entry node. Checked on the HTTP route with handler counts from every node.
+func runC06GoAwayForwarded(sh *core.Shard) {
+	var ns []*Node
+	for _, id := range []string{"ga-a", "ga-b", "ga-c"} {
+		n, err := StartNode(NodeOpts{ID: id})
+		if err != nil {
+			sh.Inconcl("go-away rig: %v", err)
+			StopAll(ns)
+			return
+		}
+		ns = append(ns, n)
+	}
+	defer StopAll(ns)
+	a, b, c := ns[0], ns[1], ns[2]
+	holder := func(n *Node, ep string) *cluster.Node {
+		return &cluster.Node{ID: n.ID, Status: cluster.NodeStatusActive, ProxyAddr: n.ProxyAddr(), AdminAddr: n.AdminAddr(), Endpoints: map[string]int{ep: 1}}
+	}
+	for si, scen := range []string{"B believes the entry node", "B believes a third node that really serves it", "B believes both"} {
+		for rep := 0; rep < 2; rep++ {
+			ep := fmt.Sprintf("ga%d-%d", si, rep)
+			ub, err := ListenHTTP(b, ep, "b-local", ListenOpts{})
+			if err != nil {
+				sh.Inconcl("listen: %v", err)
+				return
+			}
+			uc, err := ListenHTTP(c, ep, "c-local", ListenOpts{})
+			if err != nil {
+				sh.Inconcl("listen: %v", err)
+				return
+			}
+			if !core.WaitUntil(20*time.Second, 2*time.Millisecond, func() bool {
+				return b.Cluster().LocalNode().Endpoints[ep] == 1 && c.Cluster().LocalNode().Endpoints[ep] == 1
+			}) {
+				sh.Inconcl("go-away rig: upstreams did not register")
+				return
+			}
+			for _, n := range ns {
+				for _, o := range ns {
+					n.Cluster().RemoveNode(o.ID)
+				}
+			}
+			a.Cluster().AddNode(holder(b, ep))
+			if si == 0 || si == 2 {
+				b.Cluster().AddNode(holder(a, ep))
+			}
+			if si == 1 || si == 2 {
+				b.Cluster().AddNode(holder(c, ep))
+			}
+			// B's upstream has served before (rep 1), then announces go-away
+			if rep == 1 {
+				if resp, err := Get(b.ProxyAddr(), "127.0.0.1", "/warm", [][2]string{{"x-piko-endpoint", ep}}, 10*time.Second); err != nil || resp.Status != 200 {
+					sh.Inconcl("go-away rig: warm-up request failed")
+					return
+				}
+			}
+			ub.GoAway()
+			time.Sleep(50 * time.Millisecond)
+			var prev []map[string]float64
+			for _, n := range ns {
+				m, err := quiescentNodeMetrics(n)
+				if err != nil {
+					sh.Inconcl("metrics: %v", err)
+					return
+				}
+				prev = append(prev, m)
+			}
+			resp, rerr := Get(a.ProxyAddr(), "127.0.0.1", "/c06-goaway", [][2]string{{"x-piko-endpoint", ep}}, 15*time.Second)
+			status, stamp := 0, ""
+			if rerr == nil {
+				status, stamp = resp.Status, resp.Header.Get("X-Stamp")
+			}
+			handler := make([]int, 3)
+			for i, n := range ns {
+				m, err := quiescentNodeMetrics(n)
+				if err != nil {
+					sh.Inconcl("metrics: %v", err)
+					return
+				}
+				handler[i] = int(SumPrefix(m, "piko_proxy_requests_total") - SumPrefix(prev[i], "piko_proxy_requests_total"))
+			}
+			sh.Eval()
+			sh.Count("goaway_forwarded_cases", 1)
+			desc := fmt.Sprintf("go-away on the receiver (%s, warm=%v): request entered at %s, forwarded to %s whose only local upstream announced go-away; proxy handler invocations a/b/c = %v, client got %d %q", scen, rep == 1, a.ID, b.ID, handler, status, stamp)
+			wit := map[string]any{"scenario": scen, "warm": rep == 1, "handler": handler, "status": status}
+			if handler[0] > 1 || handler[1] > 1 || handler[0]+handler[1]+handler[2] > 2 {
+				sh.Violate("request-amplification", desc, wit)
+				return
+			}
+			if handler[2] > 0 || stampNode(stamp) == c.ID {
+				sh.Violate("second-hop", desc+": a request that had already been forwarded once reached a third node", wit)
+				return
+			}
+			if handler[0] == 1 && handler[1] == 1 && status != 502 && status != 504 && stampNode(stamp) != b.ID {
+				sh.Violate("expected-502", desc, wit)
+				return
+			}
+			ub.Shutdown()
+			uc.Shutdown()
+			sh.Nontrivial(core.Hash("goaway-forwarded", si, rep))
+		}
+	}
+}
+
 func runC06(sh *core.Shard, a props.Args) {
 	if a.Shard == a.NShards-1 {
 		fmt.Println("CASE C06 local preference under disconnect orders")
 		runC06LocalPreference(sh)
+	}
+	if a.Shard == 0 {
+		fmt.Println("CASE C06 forwarded request meets a go-away'd upstream")
+		runC06GoAwayForwarded(sh)
 	}
 	// work units: (n, noTimeout, chunk of belief matrices)
 	type unit struct {
@@ -558,12 +675,12 @@ func runC06(sh *core.Shard, a props.Args) {
 func init() {
 	props.Register(&props.Prop{
 		ID: "C06", Level: "exploration", Race: true, Parallel: 8,
-		Rule: "every node runs with a non-default access-log header filter (odd nodes an allow-list of User-Agent only, even nodes a block-list naming the routing headers); 2-4 stand-alone real nodes with beliefs injected through cluster.State's public mutators: every belief matrix (node i believes node j serves the endpoint, rightly or wrongly; includes mutual and cyclic beliefs) x every placement of real upstreams x every entry node x route in {HTTP, HTTP carrying Upgrade: websocket, TCP tunnel}, with the proxy timeout at its default and disabled. For N=2 (4 matrices) and N=3 (64 matrices) the space is enumerated completely (in quick the N=3 matrices are split between the two timeout configurations; thorough runs both in full); N=4 is sampled. One request at a time; per-node deltas of piko_proxy_requests_total, piko_upstreams_upstream_requests_total and piko_upstreams_remote_requests_total are scraped once every node's in-flight gauge is zero. Oracle: <=1 handler invocation per node and <=2 in total, <=1 remote selection, none on a node with a local upstream or on a node that received the request forwarded; entry with local upstream serves it itself; otherwise exactly one forward to a believed node, served by that node's local upstream or 502; nobody believed => single 502. Distinct = one per (N, matrix, placement, entry, route, config).",
+		Rule: "every node runs with a non-default access-log header filter (odd nodes an allow-list of User-Agent only, even nodes a block-list naming the routing headers); 2-4 stand-alone real nodes with beliefs injected through cluster.State's public mutators: every belief matrix (node i believes node j serves the endpoint, rightly or wrongly; includes mutual and cyclic beliefs) x every placement of real upstreams x every entry node x route in {HTTP, HTTP carrying Upgrade: websocket, TCP tunnel}, with the proxy timeout at its default and disabled. For N=2 (4 matrices) and N=3 (64 matrices) the space is enumerated completely (in quick the N=3 matrices are split between the two timeout configurations; thorough runs both in full); N=4 is sampled. One request at a time; per-node deltas of piko_proxy_requests_total, piko_upstreams_upstream_requests_total and piko_upstreams_remote_requests_total are scraped once every node's in-flight gauge is zero. Oracle: <=1 handler invocation per node and <=2 in total, <=1 remote selection, none on a node with a local upstream or on a node that received the request forwarded; entry with local upstream serves it itself; otherwise exactly one forward to a believed node, served by that node's local upstream or 502; nobody believed => single 502. Go-away scenario (3 nodes, HTTP): the entry node forwards to a node whose only local upstream has announced go-away (cold, or after serving one request) and whose own table lists the entry node, a third node that really serves the endpoint, or both: handler invocations <=1 per node, <=2 in total, none on the third node, and the client gets 502. Distinct = one per (N, matrix, placement, entry, route, config).",
 		Assumptions: []string{
 			"counters are read from /metrics at quiescence (in-flight gauge zero), so a loop that never terminates shows up as a watchdog/inconclusive plus amplified counts",
 			"requests are sequential: the property is about routing decisions, not concurrency (C20)",
 		},
-		RequireCounters:   []string{"forwarded_requests", "forwarded_then_502", "requests", "local_preference_orders"},
+		RequireCounters:   []string{"forwarded_requests", "forwarded_then_502", "requests", "local_preference_orders", "goaway_forwarded_cases"},
 		ExhaustiveWhenAll: false,
 		Run:               runC06,
 	})
